@@ -338,7 +338,10 @@ func serializeHDAccountKey(encryptedPubKey, encryptedPrivKey []byte) []byte {
 }
 
 func fetchAccountUsage(b db.Bucket) (uint32, error) {
-	val, _ := b.Get(accountUsageName)
+	val, err := b.Get(accountUsageName)
+	if err != nil {
+		return 0, err
+	}
 	if val == nil {
 		str := "required account usage not stored in " +
 			"database"
@@ -413,7 +416,10 @@ func putAccountInfo(b db.Bucket, scope *KeyScope,
 // database.
 func fetchAccountInfo(b db.Bucket, account uint32) (interface{}, error) {
 	accountID := uint32ToBytes(account)
-	data, _ := b.Get(accountID)
+	data, err := b.Get(accountID)
+	if err != nil {
+		return nil, err
+	}
 	if data == nil {
 		str := fmt.Sprintf("account %d not found", account)
 		return nil, errors.New(str)
